@@ -8,7 +8,7 @@ import props
 ALL = [f"C{n:02d}" for n in range(1, 21)]
 checks, na = [], []
 for pid in ALL:
-    cfg = props.PROPS.get(pid)
+    cfg = props.PROPS.load_all().get(pid)
     if cfg and cfg.get("claimed"):
         checks.append({
             "property_id": pid,
